@@ -71,4 +71,18 @@ theorem bg_noninterference (s : St) (bg' : List (Nat × Nat × HState)) (l : Lab
     (step { s with bg := bg' } l).map noBg = (step s l).map noBg := by
   cases l <;> first | exact False.elim hl | (simp only [step]; (repeat' split) <;> simp_all [noBg])
 
+/-- forget the handlers of other goroutines' dispatches -/
+def noOther (s : St) : St := { s with other := 0 }
+
+/-- **dispatches by other goroutines do not interfere**: REGISTER is dispatched by the caller of `Connect` while the event
+loop is already at work, on the very same handler sets. However many handlers of such dispatches are running, every step
+of recv, runLoop, its handlers and Close is enabled in exactly the same states and has the same effect: each dispatch
+joins the handlers it started itself and no others - so "all handlers of one line have finished before those of the next
+begin" and "the tracker reflects exactly the lines up to this one" (`delivery_ok`, `fg_sees_exactly_its_line`) hold
+whatever else is being dispatched meanwhile -/
+theorem other_dispatches_do_not_interfere (s : St) (n : Nat) (l : Label)
+    (hl : match l with | .otherSpawn _ => False | .otherLeave => False | _ => True) :
+    (step { s with other := n } l).map noOther = (step s l).map noOther := by
+  cases l <;> first | exact False.elim hl | (simp only [step]; (repeat' split) <;> simp_all [noOther])
+
 end Props.C03
